@@ -1,6 +1,7 @@
 """X01 (growth) - address and special-name codecs: dns.ipv4 / dns.ipv6 (RFC 4291 text forms,
 RFC 5952 canonical text), dns.inet classifiers, dns.reversename, dns.e164."""
 import concurrent.futures as cf
+import hashlib
 import json
 import os
 import random
@@ -48,6 +49,7 @@ CONSTANTS
   FaultMod = {fmod}
   FaultRem = {frem}
   NameMod = {nmod}
+  WideMod = {wmod}
 INVARIANT Emit
 CHECK_DEADLOCK FALSE
 """
@@ -65,9 +67,9 @@ NONE = ["none"]
 def bounds(quick):
     if quick:
         return dict(schemes="{1, 2, 3}", quads="{0, 1, 255}", elen=3, spell="{1}", fault="{1}", wide="{}",
-                    names="{2}", foct="{0, 255}", fmod=8, nmod=16)
-    return dict(schemes="{1, 2, 3, 4, 5}", quads="{0, 1, 9, 10, 99, 100, 255}", elen=4, spell="{1, 2, 3, 4, 5}",
-                fault="{1, 2, 3}", wide="{2}", names="{2, 3}", foct="{0, 10, 255}", fmod=1, nmod=1)
+                    names="{2}", foct="{0, 255}", fmod=8, nmod=16, wmod=8)
+    return dict(schemes="{1, 2, 3, 4, 5}", quads="{0, 1, 10, 100, 255}", elen=4, spell="{1, 2, 3, 4, 5}",
+                fault="{1, 2}", wide="{3}", names="{2, 3}", foct="{0, 10, 255}", fmod=1, nmod=1, wmod=4)
 
 
 # ------------------------------------------------------------------ jobs
@@ -204,11 +206,20 @@ V4TAIL = re.compile(r"(^|:)\d+\.\d+\.\d+\.\d+\n$")
 
 
 def shape(cs):
-    """abstract spelling of a text: digit runs -> d, other hex runs -> h, the rest literal"""
-    s = "".join(chr(c) if 32 < c < 127 else "\\x%02x" % c if c < 256 else "\\u%04x" % c for c in cs)
-    s = re.sub(r"[0-9]+", "d", s)
-    s = re.sub(r"[0-9a-fA-Fd]*[a-fA-F][0-9a-fA-Fd]*", "h", s)
-    return s[:60]
+    """abstract spelling of a text: digit runs -> #, other hex-digit runs -> h, the rest literal"""
+    out = []
+    run = ""
+    for c in list(cs) + [-1]:
+        ch = chr(c) if c >= 0 else ""
+        if ch and ch in "0123456789abcdefABCDEF":
+            run += ch
+            continue
+        if run:
+            out.append("#" if run.isdigit() else "h")
+            run = ""
+        if c >= 0:
+            out.append(ch if 32 < c < 127 else "\\x%02x" % c if c < 256 else "\\u%04x" % c)
+    return "".join(out)[:60]
 
 
 def classify(tr, line, clause):
@@ -251,54 +262,106 @@ def nontrivial(job):
     return job[1] not in ("ntoa4",)
 
 
+RULE = ("universe emitted by TLC from specs/AddrUniverse.tla via Gen_AddrCodec (every zero/non-zero pattern of the 8 "
+        "groups x value schemes, ::/96 and ::ffff:0:0/96 over boundary octets, addresses around ff00::/8, "
+        "{0,1,9,10,99,100,255}^4 with first octets around 224/4; for each address all RFC 4291 spellings, single-fault texts, "
+        "its reverse names and single-fault reverse names; every E.164 text over a 9-character alphabet up to the tier's "
+        "length) plus seeded random addresses / texts / names; one single-event trace per (input, call group); "
+        "distinct = distinct (call group, arguments)")
+ASSUME = ["TLC and CommunityModules Json are correct", "driver projection (drivers/x01_addr.py) is faithful",
+          "exhaustive only inside the universes of specs/AddrUniverse.tla; beyond them seeded random inputs",
+          "texts reach the functions as str (and as bytes when ASCII); lone surrogates are not exercised",
+          "named scope ids (socket.if_nametoindex) and dns.e164.query are outside the specification"]
+BATCH = 250000
+
+
+def digest(tr):
+    return hashlib.md5(json.dumps(tr, sort_keys=True, separators=(",", ":")).encode()).hexdigest()[:16]
+
+
+def start_models(ctx, quick, ex):
+    """the laws (sliced into single-worker TLC runs) and the vacuity witnesses, as futures"""
+    b = bounds(quick)
+    base = "SPECIFICATION Spec\nCONSTANTS\n" + UNIVERSE.format(**b)
+    invs = [ln for ln in open(os.path.join(tlc.SPECS, "MC_AddrCodec_quick.cfg")).read().splitlines() if ln.startswith("INVARIANT")]
+    na6 = 8
+    runs = [('{"a6"}', "%d..%d" % (i * 256 // na6, (i + 1) * 256 // na6 - 1), 1) for i in range(na6)]
+    runs += [('{"e164"}', "0..255", 1), ('{"emb"}', "0..255", 1 if quick else 4),
+             ('{"a4"}', "{0, 1, 9, 223}", 1), ('{"a4"}', "{10, 99, 224, 239}", 1), ('{"a4"}', "{100, 240, 255}", 1)]
+    mc, vac = [], []
+    for i, (modes, keys, w) in enumerate(runs):
+        cfg = ctx.cfg("mc_%d.cfg" % i, base + "  Modes = %s\n  KeySel <- Sel\n  WideFaults = %s\n" % (modes, "FALSE" if quick else "TRUE")
+                      + "\n".join(invs) + "\nCHECK_DEADLOCK FALSE\n")
+        mod = ctx.cfg("MCX01_%d.tla" % i, "---- MODULE MCX01_%d ----\nEXTENDS MC_AddrCodec\nSel == %s\n====\n" % (i, keys))
+        mc.append(ex.submit(ctx.model, mod, cfg, workers=w))
+    for v in VAC:
+        cfg = ctx.cfg("vac_%s.cfg" % v, base.replace(b["schemes"], "{1, 2, 3}").replace(b["quads"], "{0, 1, 255}")
+                      + '  Modes = {"a6", "emb", "a4", "e164"}\n  KeySel <- AllKeys\n  WideFaults = FALSE\nINVARIANT %s\nCHECK_DEADLOCK FALSE\n' % v)
+        vac.append((v, ex.submit(ctx.model, "MC_AddrCodec", cfg, workers=1, expect_ok=False, count=False)))
+    return mc, vac
+
+
 def run(ctx):
     quick = ctx.tier == "quick"
     rng = random.Random(ctx.seed * 7919 + 11)
-    ctx.rule = ("universe emitted by TLC from specs/AddrUniverse.tla via Gen_AddrCodec (every zero/non-zero pattern of the 8 "
-                "groups x value schemes, ::/96 and ::ffff:0:0/96 over boundary octets, {0,1,9,10,99,100,255}^4; for each address "
-                "all RFC 4291 spellings, single-fault texts, its reverse names and single-fault reverse names; every E.164 text "
-                "over a 9-character alphabet up to the tier's length) plus seeded random addresses / texts / names; one "
-                "single-event trace per (input, call group); distinct = distinct (call group, arguments)")
-    ctx.assumptions += ["TLC and CommunityModules Json are correct", "driver projection (drivers/x01_addr.py) is faithful",
-                        "exhaustive only inside the universes of specs/AddrUniverse.tla; beyond them seeded random inputs",
-                        "texts reach the functions as str (and as bytes when ASCII); lone surrogates are not exercised",
-                        "named scope ids (socket.if_nametoindex) and dns.e164.query are outside the specification"]
-    mc = []
+    ctx.rule = RULE
+    ctx.assumptions += ASSUME
+    # Mutation support (notes/X01_mutants.py): with VERIF_X01_DIFF=<dir> the first run stores the generated universe and a
+    # digest + verdict of every trace; later runs (other trees) validate only the traces that differ - a verdict is a
+    # function of the trace.  The TLC laws do not depend on the tree and are skipped in that mode.
+    diff = os.environ.get("VERIF_X01_DIFF")
+    base = None
+    mc, vac = [], []
     if ctx.replay_case:
         job = ctx.replay_case["case"]["job"]
         jobs = [(job[0], job[1], tuple(job[2]))]
     else:
-        ex = cf.ThreadPoolExecutor(max_workers=8)
-        b = bounds(quick)
-        base = "SPECIFICATION Spec\nCONSTANTS\n" + UNIVERSE.format(**b)
-        invs = [ln for ln in open(os.path.join(tlc.SPECS, "MC_AddrCodec_quick.cfg")).read().splitlines() if ln.startswith("INVARIANT")]
-        for i, modes in enumerate(('{"a6"}', '{"emb", "e164"}', '{"a4"}')):
-            cfg = ctx.cfg("mc_%d.cfg" % i, base + "  Modes = %s\n  WideFaults = %s\n" % (modes, "FALSE" if quick else "TRUE")
-                          + "\n".join(invs) + "\nCHECK_DEADLOCK FALSE\n")
-            mc.append(ex.submit(ctx.model, "MC_AddrCodec", cfg, workers=(4 if quick else 8) if i == 0 else 1))
-        vac = []
-        for v in VAC:
-            cfg = ctx.cfg("vac_%s.cfg" % v, base.replace(b["schemes"], "{1, 2, 3}").replace(b["quads"], "{0, 1, 255}")
-                          + '  Modes = {"a6", "emb", "a4", "e164"}\n  WideFaults = FALSE\nINVARIANT %s\nCHECK_DEADLOCK FALSE\n' % v)
-            vac.append((v, ex.submit(ctx.model, "MC_AddrCodec", cfg, workers=1, expect_ok=False, count=False)))
-        gcfg = ctx.cfg("gen.cfg", GEN_CFG.format(frem=1 + ctx.seed, **b))
-        behs = ctx.generate("Gen_AddrCodec", gcfg, count=False, heap="4g")
+        ex = cf.ThreadPoolExecutor(max_workers=24)
+        if not diff:
+            mc, vac = start_models(ctx, quick, ex)
+        cache = os.path.join(diff, "behs_%s_%d.json" % (ctx.tier, ctx.seed)) if diff else None
+        if cache and os.path.exists(cache):
+            behs = json.load(open(cache))
+            base = json.load(open(cache.replace("behs_", "base_")))
+        else:
+            gcfg = ctx.cfg("gen.cfg", GEN_CFG.format(frem=1 + ctx.seed, **bounds(quick)))
+            behs = ctx.generate("Gen_AddrCodec", gcfg, count=False, heap="4g")
+            if cache:
+                json.dump(behs, open(cache, "w"))
         jobs = build_jobs(ctx, quick, behs, rng)
+        del behs
         ctx.log("%d call groups to run on the implementation" % len(jobs))
-    traces = ctx.pmap(x01_addr.run_job, jobs, chunk=1000)
-    for tr in traces[:1] + traces[len(traces) // 2:len(traces) // 2 + 2] + traces[-2:]:
-        ctx.sample(json.dumps(tr["ev"][0])[:300])
+    ctx.distinct = set(hashlib.md5(json.dumps(j[1:], separators=(",", ":")).encode()).digest()[:8] for j in jobs if nontrivial(j))
+    ctx.evaluations = len(jobs)
     jobmap = {j[0]: j for j in jobs}
-    ctx.distinct = set(json.dumps(j[1:], separators=(",", ":")) for j in jobs if nontrivial(j))
-    ctx.evaluations = len(traces)
-    rejects = ctx.validate("Trace_AddrCodec", "Trace_AddrCodec.cfg", traces)
+    rejects, digests, skipped = [], {}, 0
+    for lo in range(0, len(jobs), BATCH):
+        traces = ctx.pmap(x01_addr.run_job, jobs[lo:lo + BATCH], chunk=1000)
+        if lo == 0:
+            for tr in traces[:1] + traces[len(traces) // 2:len(traces) // 2 + 2] + traces[-2:]:
+                ctx.sample(json.dumps(tr["ev"][0])[:300])
+        if diff:
+            for tr in traces:
+                digests[tr["tid"]] = digest(tr)
+        if base is not None:
+            same = [tr for tr in traces if base["digest"].get(tr["tid"]) == digests[tr["tid"]]]
+            skipped += len(same)
+            rejects += [(tr, 1, base["rejected"][tr["tid"]]) for tr in same if tr["tid"] in base["rejected"]]
+            traces = [tr for tr in traces if base["digest"].get(tr["tid"]) != digests[tr["tid"]]]
+        rejects += ctx.validate("Trace_AddrCodec", "Trace_AddrCodec.cfg", traces)
+        del traces
+    if diff and base is None and not ctx.replay_case:
+        json.dump({"digest": digests, "rejected": {tr["tid"]: clause for tr, _, clause in rejects}},
+                  open(cache.replace("behs_", "base_"), "w"))
+    if base is not None:
+        ctx.extra["unchanged_traces_not_revalidated"] = skipped
     for f in mc:
         f.result()
-    if not ctx.replay_case:
-        for v, f in vac:
-            r = f.result()
-            if r.violated != v:
-                raise Machinery("vacuity witness %s not reached (violated=%s errors=%s)" % (v, r.violated, r.errors[:2]))
+    for v, f in vac:
+        r = f.result()
+        if r.violated != v:
+            raise Machinery("vacuity witness %s not reached (violated=%s errors=%s)" % (v, r.violated, r.errors[:2]))
+    if vac:
         ctx.extra["vacuity_witnesses"] = VAC
     by_sig = {}
     for tr, line, clause in rejects:
@@ -307,3 +370,48 @@ def run(ctx):
         e = tr["ev"][line - 1] if line else tr["ev"][0]
         ctx.violation(clause, sig, "event %s" % json.dumps(e)[:400], {"job": jobmap.get(tr["tid"]), "line": line, "trace": tr})
     ctx.extra["rejected_by_signature"] = dict(sorted(by_sig.items()))
+
+
+# ------------------------------------------------------------------ selftest: corrupted logs must be rejected
+def selftest(ctx):
+    """./check X01 --selftest: good traces of every call group are accepted; each of them with ONE logged field
+    corrupted is rejected (prints the matrix; exit 0 iff all corruptions are rejected and all originals accepted)."""
+    import copy
+    a6 = [0x20, 0x01, 0x0d, 0xb8] + [0] * 11 + [1]
+    t6 = [ord(c) for c in "2001:db8::1"]
+    n6 = [[c] for c in b"1000000000000000000000008bd01002"] + IP6
+    good = [x01_addr.run_job(j) for j in [
+        ("g0", "ntoa6", (a6,)), ("g1", "ntoa4", ([192, 0, 2, 1],)), ("g2", "aton", (t6,)), ("g3", "canon", (t6,)),
+        ("g4", "inet", ([ord(c) for c in "ff02::1%3"], 53)), ("g5", "fromaddr", (t6, ALT4, ALT6)),
+        ("g6", "toaddr", (n6, IN_ADDR, IP6, True)), ("g7", "e164f", ([ord(c) for c in "+1 650"], ["some", E164], True)),
+        ("g8", "e164t", ([[48], [53], [54]] + E164, ["some", E164], True))]]
+
+    def mut(i, path, fn):
+        tr = copy.deepcopy(good[i])
+        tr["tid"] = "c%d_%s" % (i, "_".join(map(str, path)))
+        obj = tr["ev"][0]
+        for k in path[:-1]:
+            obj = obj[k]
+        obj[path[-1]] = fn(obj[path[-1]])
+        return tr
+
+    bump = lambda v: v + 1  # noqa: E731
+    flip = lambda v: not v  # noqa: E731
+    bad = [mut(0, ["res", 1, 0], bump), mut(0, ["res", 1], lambda v: v[:5] + [48] + v[5:]), mut(0, ["mapped"], flip),
+           mut(0, ["ntop", 1, 2], bump), mut(1, ["res", 1, 0], bump), mut(2, ["r6", 1, 15], bump), mut(2, ["r4"], lambda v: ["ok", [1, 2, 3, 4]]),
+           mut(2, ["p6", 1, 0], bump), mut(2, ["r6b"], lambda v: ["err", True, False, "SyntaxError"]),
+           mut(3, ["c6", 1], lambda v: [ord(c) for c in "2001:DB8::1"]), mut(3, ["c4", 1], flip), mut(3, ["ci"], lambda v: ["err", False, True, "ValueError"]),
+           mut(4, ["af", 1], lambda v: 4), mut(4, ["mc", 1], flip), mut(4, ["isaddr", 1], flip), mut(4, ["ll", 1, 1, 2], bump),
+           mut(5, ["res", 1, 0, 0], bump), mut(5, ["alt", 1, 33], lambda v: [120]), mut(6, ["res", 1, 0], bump),
+           mut(6, ["res"], lambda v: ["err", True, False, "SyntaxError"]), mut(7, ["res", 1, 0, 0], bump), mut(8, ["res", 1, 1], bump),
+           mut(8, ["res"], lambda v: ["err", True, False, "SyntaxError"])]
+    rej = ctx.validate("Trace_AddrCodec", "Trace_AddrCodec.cfg", good + bad)
+    rejected = {tr["tid"]: clause for tr, _, clause in rej}
+    ok = True
+    for tr in good:
+        print("original  %-24s %s" % (tr["tid"], "REJECTED (%s)" % rejected[tr["tid"]] if tr["tid"] in rejected else "accepted"))
+        ok &= tr["tid"] not in rejected
+    for tr in bad:
+        print("corrupted %-24s %s" % (tr["tid"], "rejected by %s" % rejected[tr["tid"]] if tr["tid"] in rejected else "ACCEPTED"))
+        ok &= tr["tid"] in rejected
+    return 0 if ok else 2
